@@ -662,8 +662,9 @@ sgsisx(superlu_options_t *options, SuperMatrix *A, int *perm_c, int *perm_r,
     }
 
     if ( options->PivotGrowth ) {
-	if ( *info > 0 ) return;
-
+	/* info > 0 only counts the zero pivots that were replaced; the
+	   factors are complete, so go on to the solve as without
+	   PivotGrowth (returning here also lost AC). */
 	/* Compute the reciprocal pivot growth factor *recip_pivot_growth. */
 	*recip_pivot_growth = sPivotGrowth(A->ncol, AA, perm_c, L, U);
     }
